@@ -832,7 +832,15 @@ impl Bindgen for FunctionBindgen<'_, '_> {
                 let vec = operands[0].clone();
                 let target = operands[1].clone();
                 let size = self.r#gen.sizes.size(element);
-                self.push_str(&format!("for (i, e) in {vec}.into_iter().enumerate() {{\n",));
+                // When lowering arguments of a sync import the callee doesn't
+                // take ownership of the elements, so they're borrowed to keep
+                // them alive until after the call. Otherwise the elements are
+                // moved out since ownership is transferred.
+                let iter = match self.lift_lower() {
+                    LiftLower::LowerArgsLiftResults if !self.always_owned => "iter",
+                    _ => "into_iter",
+                };
+                self.push_str(&format!("for (i, e) in {vec}.{iter}().enumerate() {{\n",));
                 self.push_str(&format!(
                     "let base = {target}.add(i * {});\n",
                     size.format(POINTER_SIZE_EXPRESSION)
